@@ -63,7 +63,9 @@ Definition holds (c : case) : bool :=
       (if str_eqb label (s "valid") then sv else true) &&
       (match label_rule label with Some r => existsb (rule_eqb r) viol | None => true end) &&
       (if sv then is_nil errs else true) &&
-      (if is_nil viol then true else negb (is_nil errs))
+      (if is_nil viol then true else negb (is_nil errs)) &&
+      (* an `implements` cycle (spec 3.7) is rejected *)
+      (if unique_names doc && negb (ok_implements_acyclic doc) then negb (is_nil errs) else true)
   | CResolve label doc failed =>
       (if str_eqb label (s "valid") then false else true) &&
       (if str_eqb label (s "dup_type") then same_kind_dup doc else true) &&
